@@ -804,6 +804,7 @@ func runC11(c *fw.Check) {
 	c.Sample(map[string]interface{}{"position": "global", "bytes": []string{"1abc", "a b", "\\22", "\x01\xff"}, "printed": "@\"1abc\" = global i32 0 ..."})
 	c.Sample(map[string]interface{}{"position": "char-array", "bytes_hex": "00 22 5c ff", "oracle": "llir re-parse and llvm-dis decoding give the same bytes"})
 	c11unnamed(c)
+	c11walk(c)
 }
 
 func c11run(c *fw.Check, p c11pos, names []string, mu *sync.Mutex, llvmSkipped *int) {
@@ -944,6 +945,16 @@ func c11llvmEach(c *fw.Check, p c11pos, built []string, report func(oracle, s, g
 }
 
 func replayC11(c *fw.Check, path string) {
+	var wc c11walkCase
+	loadReplay(path, &wc)
+	if wc.Slot != "" {
+		var ws string
+		fmt.Sscanf(wc.Bytes, "%q", &ws)
+		c11walkOne(c, wc.Slot, ws)
+		c.Case("a", "a")
+		c.Case("b", "b")
+		return
+	}
 	var cs c11case
 	loadReplay(path, &cs)
 	var s string
